@@ -369,6 +369,41 @@ CLAIMED = {
              "only parallel path (1/8 threads, copies crossing the threshold) = sequential path, at 2*10^-6. CALL algo.pageRank exposes "
              "only iterations and damping. CDLP's iteration counter only required to be <= k and consistent with the labelling.",
         ref="DESIGN.md §4 C26/C27"),
+    "C11": dict(
+        text="CypherWrite.tla gives the reference mutation semantics of the openCypher write fragment over a logical property graph with a "
+             "unique-constraint registry (a write is refused iff afterwards two live nodes of the constrained label would hold equal "
+             "values, and then changes nothing). TLC checks NoDuplicate and Refused<=>WouldDuplicate on all histories of single-node "
+             "CREATE / SET / REMOVE / DELETE / SET label / REMOVE label statements over 3 tagged nodes, values {1,2}, with CREATE "
+             "CONSTRAINT at any point (backfill), finds the unchecked-label-add counterexample as a self-test, and emits one script per "
+             "transition (depth 4 / 6) plus random 12-step histories; each is rendered to Cypher, executed through "
+             "QueryEngine::execute_mut, and after every statement the outcome, the full graph dumped through the GraphStore API, the label "
+             "index and the registered holder of every value in the constraint index are validated by TLC against CypherWrite_Trace.tla.",
+        note="Bounded: <=3 live nodes, one constraint :A(k), statements touch one node addressed through a tag property (no index involved). "
+             "Index-backed property lookups are not probed here (C02). Stored null = absent. Node ids are bound from the dump.",
+        ref="DESIGN.md §4 C11"),
+    "C05": dict(
+        text="Same specification (CypherWrite.tla); a statement leaves the graph unchanged whenever it reports an error. TLC enumerates "
+             "set-up graphs (<=3 nodes, constraint :A(k)) x multi-row statements (UNWIND list CREATE / MERGE with k: 10/x, MATCH SET k = "
+             "10/n.p, MATCH CREATE, MATCH SET label) in which every row position can fail by zero divisor, operand type or duplicate "
+             "constrained value (lists <=3 / <=4), checks C05_ErrorChangesNothing on the design and finds the row-by-row counterexample "
+             "when the deviation is enabled; every script is replayed on the real engine and TLC validates outcome, full dump, constraint "
+             "registry, and index / constraint-index / label probes for every value after every statement. The open finding "
+             "KF_C05_RowByRowApply admits exactly 'rows before the failing one stay applied'.",
+        note="Every row order of a MATCH is accepted. Fault kinds: evaluation errors and constraint violations (not 'missing node'). Write "
+             "shapes are single-entity per row, so a half-applied row would be a violation.",
+        ref="DESIGN.md §4 C05"),
+    "C04": dict(
+        text="Same specification over ~45 (thorough ~56) statement shapes: CREATE of nodes and paths, MATCH/UNWIND-driven CREATE, MERGE with "
+             "ON CREATE / ON MATCH (labelled, unlabelled, per UNWIND row, several matches), SET (literal, from another property, swap, "
+             "n.k+1, += map, label, null, failing expression), REMOVE (property, label), DELETE / DETACH DELETE of nodes and "
+             "relationships, RETURN; TLC checks connected-DELETE-refused, MERGE idempotence, no dangling relationships and "
+             "error-changes-nothing on the design, emits one script per transition of the state graph to depth 3 (thorough: rich alphabet "
+             "+ depth 4) plus random 6-statement walks; after every statement outcome, returned rows (as a bag) and the full dump (labels, "
+             "typed properties from row and column store, endpoints, types, relationship properties, adjacency lists) must equal the "
+             "specified graph up to the ids of created entities.",
+        note="No constraints/indexes here. WITH only as MATCH (n) WITH n <write>; FOREACH, path/relationship MERGE, SET n = {..}, cross-node "
+             "reads in SET not modelled; MATCH row order left open; stored null = absent.",
+        ref="DESIGN.md §4 C04"),
 }
 
 NOT_YET = "check not built yet in this round (planned in DESIGN.md §4); not claimed until its check is green on the unchanged tree"
